@@ -111,3 +111,30 @@ func Publish(doc *gedcom.Document, o Options) (res *Result) {
 	res.Err = p.Publish(&writer{res: res, failAt: o.FailAt, failFrom: o.FailFrom}, jobs)
 	return res
 }
+
+// Retry uses ONE Publisher twice: first with a writer that fails as o says (FailAt /
+// FailFrom), then again with a writer that works (somebody freed disk space and tried again).
+func Retry(doc *gedcom.Document, o Options) (first, second *Result) {
+	first = &Result{Files: map[string][]byte{}, Writes: map[string]int{}, Kinds: map[string][]string{}}
+	second = &Result{Files: map[string][]byte{}, Writes: map[string]int{}, Kinds: map[string][]string{}}
+	cur := first
+	defer func() {
+		if p := recover(); p != nil {
+			cur.Panic = fmt.Sprint(p)
+		}
+	}()
+	opts := &html.PublishShowOptions{
+		ShowIndividuals: o.Individuals, ShowPlaces: o.Places, ShowFamilies: o.Families,
+		ShowSurnames: o.Surnames, ShowSources: o.Sources, ShowStatistics: o.Statistics,
+		LivingVisibility: html.NewLivingVisibility(o.Visibility),
+	}
+	jobs := o.Jobs
+	if jobs < 1 {
+		jobs = 1
+	}
+	p := html.NewPublisher(doc, opts)
+	first.Err = p.Publish(&writer{res: first, failAt: o.FailAt, failFrom: o.FailFrom}, jobs)
+	cur = second
+	second.Err = p.Publish(&writer{res: second}, jobs)
+	return first, second
+}
